@@ -191,6 +191,67 @@ fn set(line: &str, key: &str, val: &str) -> String {
         .join(" ")
 }
 
+// ---- strengthening round: Blob / ExtendedHeader conversion layers ---------------------------------
+
+type RawEh = celestia_proto::header::pb::ExtendedHeader;
+
+fn raw_blob_fields(r: &celestia_types::blob::RawBlob) -> String {
+    format!("nsid={};nsver={};data={};sv={};signer={}", hx(&r.namespace_id), r.namespace_version, hx(&r.data), r.share_version, hx(&r.signer))
+}
+
+fn blob_err_kind(e: &celestia_types::Error) -> &'static str {
+    use celestia_types::Error as E;
+    match e {
+        E::UnsupportedNamespaceVersion(_) | E::InvalidNamespaceSize | E::InvalidNamespaceV0 | E::InvalidNamespaceV255 => "ns",
+        E::UnsupportedShareVersion(_) => "share-version",
+        E::SignerNotSupported => "signer-not-supported",
+        E::MissingSigner => "missing-signer",
+        _ => "other",
+    }
+}
+
+/// value -> RawBlob -> protobuf bytes -> RawBlob -> Blob::from_raw
+fn blob_pb(b: &Blob, app: celestia_types::AppVersion) -> &'static str {
+    let bytes = celestia_types::blob::RawBlob::from(b.clone()).encode_to_vec();
+    flag(celestia_types::blob::RawBlob::decode(&bytes[..]).ok().and_then(|r| Blob::from_raw(r, app).ok()).map(|x| &x == b))
+}
+
+/// oracle of an `ehraw` line: what the THIRD-PARTY conversions say about each message
+/// (`ok` / `err` / `none` = message absent), the raw DAH in full, and — when all four convert —
+/// whether the assembled header passes `ExtendedHeader::validate`
+fn ehraw_oracle(r: &RawEh) -> String {
+    let st = |present: bool, ok: bool| if !present { "none" } else if ok { "ok" } else { "err" };
+    let h = r.header.clone().map(tendermint::block::Header::try_from);
+    let c = r.commit.clone().map(tendermint::block::Commit::try_from);
+    let v = r.validator_set.clone().map(tendermint::validator::Set::try_from);
+    let d = r.dah.clone().map(DataAvailabilityHeader::try_from);
+    let valid = match (&h, &c, &v, &d) {
+        (Some(Ok(h)), Some(Ok(c)), Some(Ok(v)), Some(Ok(d))) => {
+            let eh = ExtendedHeader { header: h.clone(), commit: c.clone(), validator_set: v.clone(), dah: d.clone() };
+            if eh.validate().is_ok() { "1" } else { "0" }
+        }
+        _ => "0",
+    };
+    let dah = match &r.dah {
+        None => "d=none".to_string(),
+        Some(d) => format!("d=some rows={} cols={}", hxl(&d.row_roots), hxl(&d.column_roots)),
+    };
+    format!(
+        "h={} c={} v={} {dah} valid={valid}",
+        st(h.is_some(), matches!(h, Some(Ok(_)))),
+        st(c.is_some(), matches!(c, Some(Ok(_)))),
+        st(v.is_some(), matches!(v, Some(Ok(_))))
+    )
+}
+
+fn ehraw_line(r: &RawEh) -> String {
+    format!("ehraw bytes={} {}", hx(&r.encode_to_vec()), ehraw_oracle(r))
+}
+
+fn b64_arg(s: &str) -> String {
+    if s == "-" { String::new() } else { s.to_string() }
+}
+
 impl C46 {
     fn gen_square(&mut self, rng: &mut Rng, w: usize, per: usize, out: &mut Emitter) {
         let (eds, nss) = gen_eds(rng, w);
@@ -372,12 +433,68 @@ impl C46 {
         out.op("ranges v=0-3".to_string(), "ranges/height-zero", true);
         out.op("ranges v=1-5,4-9".to_string(), "ranges/overlap", true);
         out.op("ranges v=7-3".to_string(), "ranges/inverted", true);
-        // blobs (correspondence only)
-        for _ in 0..n {
+        // blobs: value level (`blobv`), raw level (`blobraw`, Blob::from_raw), JSON field level (`blobjson`).
+        // Field lines are built from the value's public fields, never through the conversions under test.
+        let latest = celestia_types::AppVersion::latest().as_u64();
+        for i in 0..n {
             let ns = user_ns(rng);
             let len = *rng.pick(&[1usize, 100, 478, 479, 500, 2000]);
-            let signer = if rng.bool() { hx(&rng.bytes(20)) } else { "-".to_string() };
-            out.op(format!("blob ns={} data={} signer={signer}", hx(ns.as_bytes()), hx(&rng.bytes(len))), "blob/valid", true);
+            let data = rng.bytes(len);
+            let signer_b = if rng.bool() { Some(rng.bytes(20)) } else { None };
+            let signer = signer_b.as_ref().map(|b| hx(b)).unwrap_or_else(|| "-".to_string());
+            let av = if signer_b.is_some() { rng.range(3, latest) } else { rng.range(1, latest) };
+            // the old correspondence-only op (kept: cheap, and the corpus may hold such lines)
+            out.op(format!("blob ns={} data={} signer={signer}", hx(ns.as_bytes()), hx(&data)), "blob/valid", true);
+            let v = format!("blobv ns={} data={} signer={signer} index=none av={av}", hx(ns.as_bytes()), hx(&data));
+            out.op(v.clone(), "blobv/valid", true);
+            if i % 4 == 0 {
+                // a blob as retrieved from chain: `index` set (not carried by BlobProto)
+                let idx = *rng.pick(&[0u64, 1, 7, 1 << 20, i64::MAX as u64]);
+                out.op(set(&v, "index", &idx.to_string()), "blobv/index-set", true);
+            }
+            if i % 7 == 0 && signer_b.is_some() {
+                out.op(set(&v, "av", "2"), "blobv/signer-before-v3", true);
+            }
+            // raw level
+            let sv = if signer_b.is_some() { 1 } else { 0 };
+            let r = format!("blobraw nsver={} nsid={} data={} sv={sv} signer={signer} av={av}", ns.version(), hx(ns.id()), hx(&data));
+            out.op(r.clone(), "blobraw/honest", true);
+            match i % 10 {
+                0 => out.op(set(&r, "nsver", "256"), "blobraw/ns-version-256-wraps", true),
+                1 => out.op(set(&r, "nsver", "1"), "blobraw/ns-version-1", true),
+                2 => out.op(set(&r, "nsid", &hx(&ns.id()[1..])), "blobraw/short-ns-id", true),
+                3 => out.op(set(&r, "sv", "256"), "blobraw/share-version-256", true),
+                4 => out.op(set(&r, "sv", "2"), "blobraw/share-version-2", true),
+                5 => out.op(set(&r, "sv", &(1 - sv).to_string()), "blobraw/share-version-signer-mismatch", true),
+                6 => out.op(set(&r, "signer", &hx(&rng.bytes(5))), "blobraw/signer-5-bytes", true),
+                7 => out.op(set(&r, "signer", &hx(&rng.bytes(21))), "blobraw/signer-21-bytes", true),
+                8 => out.op(set(&r, "av", "1"), "blobraw/app-version-1", true),
+                _ => out.op(set(&r, "nsid", &hx(&[7u8; 28])), "blobraw/ns-id-not-v0", true),
+            }
+            // JSON field level: the commitment is the real one (computed through the public constructor)
+            if let Ok(b) = Blob::new(ns, data.clone(), signer_b.as_ref().and_then(|b| celestia_types::state::AccAddress::try_from(&b[..]).ok()), celestia_types::AppVersion::from_u64(av).unwrap()) {
+                use base64::Engine;
+                let e = |b: &[u8]| if b.is_empty() { "-".to_string() } else { base64::engine::general_purpose::STANDARD.encode(b) };
+                let sj = signer_b.as_ref().map(|b| e(b)).unwrap_or_else(|| "null".to_string());
+                let idx = *rng.pick(&["-1", "0", "5", "9223372036854775807", "absent", "-7"]);
+                let j = format!("blobjson ns={} data={} sv={sv} commit={} index={idx} signer={sj}", e(ns.as_bytes()), e(&data), e(b.commitment.hash()));
+                out.op(j.clone(), "blobjson/honest", true);
+                match i % 10 {
+                    0 => {
+                        let other = if signer_b.is_some() { "null".to_string() } else { e(&[9u8; 20]) };
+                        out.op(set(&j, "signer", &other), "blobjson/share-version-signer-mismatch", true)
+                    }
+                    1 => out.op(set(&j, "signer", "absent"), "blobjson/signer-absent", true),
+                    2 => out.op(set(&j, "signer", &e(&[9u8; 19])), "blobjson/signer-19-bytes", true),
+                    3 => out.op(set(&j, "sv", "2"), "blobjson/share-version-2", true),
+                    4 => out.op(set(&j, "sv", "256"), "blobjson/share-version-256", true),
+                    5 => out.op(set(&j, "commit", &e(&[1u8; 31])), "blobjson/commitment-31-bytes", true),
+                    6 => out.op(set(&j, "commit", &e(&[1u8; 32])), "blobjson/foreign-commitment", true),
+                    7 => out.op(set(&j, "ns", &e(&[7u8; 29])), "blobjson/invalid-namespace", true),
+                    8 => out.op(set(&j, "ns", &e(&ns.as_bytes()[..28])), "blobjson/short-namespace", true),
+                    _ => out.op(set(&j, "signer", "-"), "blobjson/signer-empty-string", true),
+                }
+            }
         }
         // extended headers (correspondence only): deterministic honest headers
         for _ in 0..n.div_ceil(4) {
@@ -397,7 +514,41 @@ impl C46 {
             let app = celestia_types::AppVersion::latest().as_u64();
             let lbi = if height == 1 { None } else { some_block_id(rng) };
             let eh = make_header(rng, "private", height, 1_700_000_000_000_000_000, app, lbi, &ordered, &set, &set, dah, &|_| true);
-            out.op(format!("eh bytes={}", hx(&eh.encode_vec())), "eh/honest", true);
+            out.op(format!("eh bytes={}", hx(&eh.clone().encode_vec())), "eh/honest", true);
+            // raw level: which messages are required, the order of the checks, validate() on decode
+            let raw = RawEh::from(eh.clone());
+            for mask in 0..16u32 {
+                let mut r = raw.clone();
+                if mask & 1 != 0 { r.header = None; }
+                if mask & 2 != 0 { r.commit = None; }
+                if mask & 4 != 0 { r.validator_set = None; }
+                if mask & 8 != 0 { r.dah = None; }
+                out.op(ehraw_line(&r), if mask == 0 { "ehraw/honest" } else { "ehraw/missing-fields" }, true);
+            }
+            let (eds2, _) = gen_eds(rng, hw);
+            let other_dah: RawDah = DataAvailabilityHeader::from_eds(&eds2).into();
+            let tampers: Vec<(&str, Box<dyn Fn(&mut RawEh)>)> = vec![
+                ("ehraw/header-does-not-convert", Box::new(|r: &mut RawEh| r.header.as_mut().unwrap().version = None)),
+                ("ehraw/commit-does-not-convert", Box::new(|r: &mut RawEh| r.commit.as_mut().unwrap().height = -1)),
+                ("ehraw/validator-set-does-not-convert", Box::new(|r: &mut RawEh| r.validator_set.as_mut().unwrap().validators[0].pub_key = None)),
+                ("ehraw/dah-does-not-convert", Box::new(|r: &mut RawEh| { r.dah.as_mut().unwrap().row_roots[0].pop(); })),
+                ("ehraw/invalid-foreign-dah", Box::new(move |r: &mut RawEh| r.dah = Some(other_dah.clone()))),
+                ("ehraw/invalid-commit-height", Box::new(|r: &mut RawEh| r.commit.as_mut().unwrap().height += 1)),
+                ("ehraw/invalid-header-height", Box::new(|r: &mut RawEh| r.header.as_mut().unwrap().height += 1)),
+                ("ehraw/invalid-no-signatures", Box::new(|r: &mut RawEh| r.commit.as_mut().unwrap().signatures.clear())),
+            ];
+            for (tag, f) in &tampers {
+                let mut r = raw.clone();
+                f(&mut r);
+                out.op(ehraw_line(&r), tag, true);
+                // a later message missing / an earlier one missing: the first failing check decides
+                let mut r2 = r.clone();
+                r2.dah = None;
+                out.op(ehraw_line(&r2), &format!("{tag}+no-dah"), true);
+                let mut r3 = r.clone();
+                r3.header = None;
+                out.op(ehraw_line(&r3), &format!("{tag}+no-header"), true);
+            }
         }
     }
 }
@@ -411,7 +562,10 @@ impl Prop for C46 {
          leopard codec: DAHs, data and parity shares, namespaces (user + reserved), namespace proofs from the real trees \
          (presence ranges, absence with and without leaf, both ignore_max_ns settings, u32 extremes) through both raw proof forms, \
          merkle / row / share proofs, bad-encoding fraud proofs (all axis combinations, absent shares), block ranges, blobs \
-         (v0 and signer v1, lengths around the share boundaries), honest signed extended headers; plus structurally invalid raw \
+         (v0 and signer v1, lengths around the share boundaries, with and without a chain index; raw BlobProto and JSON field forms \
+         incl. wrapped namespace versions, out-of-range / inconsistent share versions, signers of wrong length, foreign commitments), \
+         honest signed extended headers and their raw forms with every subset of the four messages missing, messages the third-party \
+         conversions refuse, and assembled headers that fail validate(); plus structurally invalid raw \
          forms (short hashes, negative/zero/i64-max indices, out-of-u16 rows, missing fields, wrong lengths). For each: raw -> value \
          -> raw with the real conversions (compared with the model), value -> protobuf bytes -> value and value -> JSON -> value \
          with the real encoders (equality of the decoded value). Non-trivial = every case; distinct = distinct (op, result) lines."
@@ -573,6 +727,116 @@ impl Prop for C46 {
                             flag(celestia_types::blob::RawBlob::decode(&bytes[..]).ok().and_then(|r| Blob::from_raw(r, app).ok()).map(|x| x == b))
                         };
                         format!("ok pb={pb} json={}", json_rt(&b))
+                    }
+                }
+            }
+            "blobv" => {
+                let (Some(ns), Some(data), Some(av)) = (arg_hex(line, "ns").and_then(|b| Namespace::from_raw(&b).ok()), arg_hex(line, "data"), arg_u64(line, "av").and_then(celestia_types::AppVersion::from_u64)) else {
+                    return "bad-op".into();
+                };
+                let signer = match arg(line, "signer") {
+                    Some("-") | None => None,
+                    Some(h) => unhx(h).and_then(|b| celestia_types::state::AccAddress::try_from(&b[..]).ok()),
+                };
+                let index = match arg(line, "index") {
+                    Some("none") | None => None,
+                    Some(i) => match i.parse::<u64>() {
+                        Ok(i) => Some(i),
+                        Err(_) => return "bad-op".into(),
+                    },
+                };
+                match Blob::new(ns, data, signer, av) {
+                    Err(_) => "err-decode".into(),
+                    Ok(mut b) => {
+                        b.index = index;
+                        let raw = celestia_types::blob::RawBlob::from(b.clone());
+                        let conv = flag(Blob::from_raw(raw.clone(), av).ok().map(|x| x == b));
+                        format!("ok raw={} commit={} conv={conv} pb={} json={}", raw_blob_fields(&raw), hx(b.commitment.hash()), blob_pb(&b, av), json_rt(&b))
+                    }
+                }
+            }
+            "blobraw" => {
+                let (Some(nsver), Some(nsid), Some(data), Some(sv), Some(signer), Some(av)) = (
+                    arg_u64(line, "nsver"),
+                    arg_hex(line, "nsid"),
+                    arg_hex(line, "data"),
+                    arg_u64(line, "sv"),
+                    arg_hex(line, "signer"),
+                    arg_u64(line, "av").and_then(celestia_types::AppVersion::from_u64),
+                ) else {
+                    return "bad-op".into();
+                };
+                let raw = celestia_types::blob::RawBlob { namespace_id: nsid, namespace_version: nsver as u32, data, share_version: sv as u32, signer };
+                match Blob::from_raw(raw, av) {
+                    Err(e) => format!("err-decode kind={}", blob_err_kind(&e)),
+                    Ok(b) => {
+                        let back = celestia_types::blob::RawBlob::from(b.clone());
+                        let index = b.index.map(|i| i.to_string()).unwrap_or_else(|| "none".into());
+                        format!("ok raw={} commit={} index={index} pb={} json={}", raw_blob_fields(&back), hx(b.commitment.hash()), blob_pb(&b, av), json_rt(&b))
+                    }
+                }
+            }
+            "blobjson" => {
+                let (Some(ns), Some(data), Some(sv), Some(commit), Some(index), Some(signer)) =
+                    (arg(line, "ns"), arg(line, "data"), arg_u64(line, "sv"), arg(line, "commit"), arg(line, "index"), arg(line, "signer"))
+                else {
+                    return "bad-op".into();
+                };
+                let mut m = serde_json::Map::new();
+                m.insert("namespace".into(), b64_arg(ns).into());
+                m.insert("data".into(), b64_arg(data).into());
+                m.insert("share_version".into(), sv.into());
+                m.insert("commitment".into(), b64_arg(commit).into());
+                if index != "absent" {
+                    let Ok(i) = index.parse::<i64>() else { return "bad-op".into() };
+                    m.insert("index".into(), i.into());
+                }
+                match signer {
+                    "absent" => {}
+                    "null" => {
+                        m.insert("signer".into(), serde_json::Value::Null);
+                    }
+                    s => {
+                        m.insert("signer".into(), b64_arg(s).into());
+                    }
+                }
+                let text = serde_json::Value::Object(m).to_string();
+                match serde_json::from_str::<Blob>(&text) {
+                    Err(_) => "err-decode".into(),
+                    Ok(b) => {
+                        let index = b.index.map(|i| i.to_string()).unwrap_or_else(|| "none".into());
+                        let signer = b.signer.as_ref().map(|a| { use celestia_types::state::AddressTrait; hx(a.as_bytes()) }).unwrap_or_else(|| "-".into());
+                        format!(
+                            "ok ns={} data={} sv={} commit={} index={index} signer={signer} json={}",
+                            hx(b.namespace.as_bytes()),
+                            hx(&b.data),
+                            b.share_version,
+                            hx(b.commitment.hash()),
+                            json_rt(&b)
+                        )
+                    }
+                }
+            }
+            "ehraw" => {
+                let Some(bytes) = arg_hex(line, "bytes") else { return "bad-op".into() };
+                let Ok(raw) = RawEh::decode(&bytes[..]) else { return "bad-op".into() };
+                // the oracle words of the line must be what the third-party code says today
+                let expect = ehraw_line(&raw);
+                if expect != line {
+                    return "oracle-mismatch".into();
+                }
+                match ExtendedHeader::try_from(raw) {
+                    Ok(_) => "ok".into(),
+                    Err(e) => {
+                        use celestia_types::Error as E;
+                        let kind = match e {
+                            E::MissingHeader => "MissingHeader",
+                            E::MissingCommit => "MissingCommit",
+                            E::MissingValidatorSet => "MissingValidatorSet",
+                            E::MissingDataAvailabilityHeader => "MissingDah",
+                            _ => "other",
+                        };
+                        format!("err-decode kind={kind}")
                     }
                 }
             }
